@@ -14,10 +14,13 @@ pub mod c08;
 pub mod c09;
 pub mod c10;
 pub mod c11;
+pub mod c12;
 pub mod c13;
 pub mod c14;
 pub mod c15;
+pub mod c16;
 pub mod c17;
+pub mod c18;
 pub mod c19;
 pub mod c20;
 
@@ -43,10 +46,13 @@ pub fn run(ctx: &mut Ctx) -> bool {
         "C09" => c09::run(ctx),
         "C10" => c10::run(ctx),
         "C11" => c11::run(ctx),
+        "C12" => c12::run(ctx),
         "C13" => c13::run(ctx),
         "C14" => c14::run(ctx),
         "C15" => c15::run(ctx),
+        "C16" => c16::run(ctx),
         "C17" => c17::run(ctx),
+        "C18" => c18::run(ctx),
         "C19" => c19::run(ctx),
         "C20" => c20::run(ctx),
         _ => return false,
@@ -73,6 +79,7 @@ pub fn replay(id: &str, sub: &str, case: &Value, ctx: &Ctx) -> Option<Verdict> {
             c11::set_cli(ctx.cli.clone(), ctx.cli_plain.clone(), ctx.root.clone());
             c11::replay(sub, case)
         }
+        "C12" => c12::replay(sub, case, ctx),
         "C13" => c13::replay(sub, case),
         "C14" => c14::replay(sub, case, ctx),
         "C15" => c15::replay_ctx(sub, case, ctx),
@@ -80,6 +87,8 @@ pub fn replay(id: &str, sub: &str, case: &Value, ctx: &Ctx) -> Option<Verdict> {
             c17::set_cli(ctx.cli.clone(), ctx.cli_plain.clone(), ctx.root.clone());
             c17::replay(sub, case)
         }
+        "C16" => c16::replay_ctx(sub, case, ctx),
+        "C18" => c18::replay(sub, case, ctx),
         "C19" => c19::replay(sub, case, ctx),
         "C20" => c20::replay(sub, case),
         _ => None,
